@@ -7,8 +7,11 @@ import (
 	"fmt"
 	"net"
 	"strings"
+	"sync"
 	"sync/atomic"
+	"time"
 
+	"github.com/AdguardTeam/AdGuardDNS/internal/dnsmsg"
 	"github.com/AdguardTeam/AdGuardDNS/internal/dnsserver"
 	"github.com/miekg/dns"
 )
@@ -36,12 +39,93 @@ var _ net.Error = timeoutErr{}
 // reference).
 var hInvocations atomic.Int64
 
+// labelSlow marks names for which the servers' copy of H takes slowDelay before
+// it behaves as usual (the response itself does not depend on the label being
+// special).  The reference invocation does not wait.
+const (
+	labelSlow = "hslow"
+	slowDelay = 30 * time.Millisecond
+)
+
 // serverHandler is H as given to the servers.
 func serverHandler() dnsserver.Handler {
 	return dnsserver.HandlerFunc(func(ctx context.Context, rw dnsserver.ResponseWriter, req *dns.Msg) error {
 		hInvocations.Add(1)
+		if len(req.Question) == 1 && strings.EqualFold(firstLabel(req.Question[0].Name), labelSlow) {
+			time.Sleep(slowDelay)
+		}
 
 		return hServe(ctx, rw, req)
+	})
+}
+
+// concurrency measures how many invocations of a handler overlap.
+type concurrency struct {
+	mu  sync.Mutex
+	cur map[string]int
+	max map[string]int
+}
+
+func newConcurrency() *concurrency { return &concurrency{cur: map[string]int{}, max: map[string]int{}} }
+
+func (c *concurrency) enter(name string) {
+	c.mu.Lock()
+	defer c.mu.Unlock()
+
+	c.cur[name]++
+	if c.cur[name] > c.max[name] {
+		c.max[name] = c.cur[name]
+	}
+}
+
+func (c *concurrency) leave(name string) {
+	c.mu.Lock()
+	defer c.mu.Unlock()
+
+	c.cur[name]--
+}
+
+func (c *concurrency) maxima() map[string]int {
+	c.mu.Lock()
+	defer c.mu.Unlock()
+
+	out := map[string]int{}
+	for k, v := range c.max {
+		out[k] = v
+	}
+
+	return out
+}
+
+// poolingHandler is H for the pooled-response phase: the same response as H's,
+// but built the way the production code builds responses, as a clone taken
+// from the pools of cloner, which is also the servers' Disposer.  When the
+// request has an OPT record the response always brings its own, so that pooled
+// OPT records take part.  It never keeps a reference to what it wrote.
+func poolingHandler(cloner *dnsmsg.Cloner, conc *concurrency) dnsserver.Handler {
+	return dnsserver.HandlerFunc(func(ctx context.Context, rw dnsserver.ResponseWriter, req *dns.Msg) error {
+		hInvocations.Add(1)
+
+		name := "?"
+		if si, ok := dnsserver.ServerInfoFromContext(ctx); ok {
+			name = si.Name
+		}
+		conc.enter(name)
+		defer conc.leave(name)
+
+		if len(req.Question) != 1 {
+			return fmt.Errorf("c01: handler called with %d questions", len(req.Question))
+		}
+
+		reqOpt := req.IsEdns0()
+		tmpl := hResponse(req, req.Question[0], reqOpt != nil && reqOpt.Do(), reqOpt != nil)
+		if reqOpt != nil && tmpl.IsEdns0() == nil {
+			tmpl.SetEdns0(1232, reqOpt.Do())
+		}
+
+		_ = rw.WriteMsg(ctx, req, cloner.Clone(tmpl))
+
+		return nil
 	})
 }
 
